@@ -157,23 +157,43 @@ def run_combinator(kind, rng, obs, hostile=False):
     theirs = [CountCalls(member(s, ip)) for s, ip in zip(specs, inplace)]
     x0 = gen_x(rng, dim)
     maxiter = rng.choice([None, None, 1, 2, 5, 30])
+    # which of the two hooks the caller installs must not matter: the path taken is inferred from the hook(s) present
+    hooks = rng.choice(['both', 'both', 'both', 'onexit', 'onfail', 'none'])
+    def build(paths, which):
+        kw = {}
+        if which in ('both', 'onexit'): kw['onexit'] = paths.onexit
+        if which in ('both', 'onfail'): kw['onfail'] = paths.onfail
+        if maxiter is not None: kw['maxiter'] = maxiter
+        ms = [CountCalls(member(s, ip)) for s, ip in zip(specs, inplace)]
+        if kind == 'and' or kind == 'and_nonidempotent': return mc.and_(*ms, **kw), ms
+        if kind == 'or': return mc.or_(*ms, **kw), ms
+        return mc.not_(ms[0], **kw), ms
     paths = Paths()
-    kw = {'onexit': paths.onexit, 'onfail': paths.onfail}
-    if maxiter is not None: kw['maxiter'] = maxiter
-    if kind == 'and' or kind == 'and_nonidempotent': comb = mc.and_(*theirs, **kw)
-    elif kind == 'or': comb = mc.or_(*theirs, **kw)
-    else: comb = mc.not_(theirs[0], **kw)
+    comb, theirs = build(paths, 'both')
     xin = list(x0)
+    rstate = _random.getstate()
     with Counter() as cnt:
         out = comb(xin)
     out = list(out)
-    obs.desc = {'kind': kind, 'members': specs, 'inplace': inplace, 'x': x0, 'maxiter': maxiter}
+    obs.desc = {'kind': kind, 'members': specs, 'inplace': inplace, 'x': x0, 'maxiter': maxiter, 'hooks': hooks}
     tag = kind if not hostile else 'and'
     obs.check(xin == x0, tag + ':the input vector is not modified', x=x0, observed=xin)
     obs.check(len(paths.fired) == 1, tag + ':exactly one of the success/failure paths is taken',
               members=specs, x=x0, observed=paths.fired)
     if len(paths.fired) != 1:
         return
+    if hooks != 'both':
+        p2 = Paths()
+        comb2, _ = build(p2, hooks)
+        after = _random.getstate(); _random.setstate(rstate)       # same cycle-breaking draws as the reference call
+        try:
+            out2 = list(comb2(list(x0)))
+        finally:
+            _random.setstate(after)
+        want = [f for f in paths.fired if f == hooks]               # the installed hook fires iff its path is the one taken
+        obs.check(p2.fired == want and out2 == out, tag + ':the path taken and the result do not depend on which hooks are installed', hooks=hooks,
+                  fired=p2.fired, expected_fired=want, result=out2, with_both_hooks=out, members=specs, x=x0, maxiter=maxiter)
+        obs.event('partial_hook_calls')
     path = paths.fired[0]
     obs.event('path:' + path)
     obs.event('random_draws', cnt.n)
